@@ -298,6 +298,16 @@ const RELOC_4_BYTE_SIGNED: RelocSizeAndRange = (
     RelocationSize::ByteSize(4),
     AllowedRange::from_byte_size(4, Sign::Signed),
 );
+// R_X86_64_16 and R_X86_64_8 are used for both signed and unsigned values, so need to accept any
+// value that fits in the field when interpreted either way.
+const RELOC_2_BYTE: RelocSizeAndRange = (
+    RelocationSize::ByteSize(2),
+    AllowedRange::new(-(2i64.pow(15)), 2i64.pow(16)),
+);
+const RELOC_1_BYTE: RelocSizeAndRange = (
+    RelocationSize::ByteSize(1),
+    AllowedRange::new(-(2i64.pow(7)), 2i64.pow(8)),
+);
 const RELOC_2_BYTE_SIGNED: RelocSizeAndRange = (
     RelocationSize::ByteSize(2),
     AllowedRange::from_byte_size(2, Sign::Signed),
@@ -332,9 +342,9 @@ pub const fn relocation_from_raw(r_type: u32) -> Option<RelocationKindInfo> {
 
         object::elf::R_X86_64_32 => (RelocationKind::Absolute, RELOC_4_BYTE_UNSIGNED),
         object::elf::R_X86_64_32S => (RelocationKind::Absolute, RELOC_4_BYTE_SIGNED),
-        object::elf::R_X86_64_16 => (RelocationKind::Absolute, RELOC_2_BYTE_SIGNED),
+        object::elf::R_X86_64_16 => (RelocationKind::Absolute, RELOC_2_BYTE),
         object::elf::R_X86_64_PC16 => (RelocationKind::Relative, RELOC_2_BYTE_SIGNED),
-        object::elf::R_X86_64_8 => (RelocationKind::Absolute, RELOC_1_BYTE_SIGNED),
+        object::elf::R_X86_64_8 => (RelocationKind::Absolute, RELOC_1_BYTE),
         object::elf::R_X86_64_PC8 => (RelocationKind::Relative, RELOC_1_BYTE_SIGNED),
         object::elf::R_X86_64_TLSGD => (RelocationKind::TlsGd, RELOC_4_BYTE_SIGNED),
         object::elf::R_X86_64_TLSLD => (RelocationKind::TlsLd, RELOC_4_BYTE_SIGNED),
